@@ -15,3 +15,6 @@ for p in "$@"; do
 done
 git -C /repo worktree remove --force $wt
 rm -rf /verif/.work/*-$name
+# every patched worktree leaves its own link outputs in the Go build cache: trim it before the disk fills up
+avail=$(df --output=avail -BG / | tail -1 | tr -dc '0-9')
+if [ "${avail:-100}" -lt 25 ]; then GOFLAGS=-mod=mod go clean -cache >/dev/null 2>&1; fi
